@@ -245,6 +245,318 @@ def first_match_comprehension(chk, rule, get):
         chk.bad(rule, name, msg, node=get.node, stmt="range-predicate")
 
 
+def _seq_parts(t):
+    """flatten a sequence-building term into [('elem', x) | ('seq', s)]: chain(...), list/tuple displays with stars, +"""
+    t = strip_sites(t)
+    if t[0] == "call" and t[1] == ("glob", "ext:itertools.chain") and not t[3]:
+        out = []
+        for a in t[2]:
+            out.extend(_seq_parts(a))
+        return out
+    if t[0] in ("list", "tuple"):
+        out = []
+        for x in t[1]:
+            if x[0] == "star":
+                out.extend(_seq_parts(x[1]))
+            else:
+                out.append(("elem", x))
+        return out
+    if t[0] == "binop" and t[1] == "+":
+        return _seq_parts(t[2]) + _seq_parts(t[3])
+    if t[0] == "call" and t[1] in (("glob", "ext:builtins.list"), ("glob", "ext:builtins.tuple")) and len(t[2]) == 1 and not t[3]:
+        return _seq_parts(t[2][0])
+    return [("seq", t)]
+
+
+INF = ("call", ("glob", "ext:builtins.float"), (("const", "inf"),), ())
+INF_TERMS = (INF, ("glob", "ext:math.inf"), ("attr", ("glob", "ext:math"), "inf"))
+
+
+def lookup_table(chk, rule):
+    """how the ranges are built: [0, t1), [t1, t2), ..., [tn, inf) over the ASCENDING thresholds, carrying base, r1, ..., rn"""
+    prog = chk.program
+    sel = prog.cls(SELECTOR)
+    init = prog.lookup_method(sel, "__init__")
+    get = prog.method(SELECTOR, "get_rule")
+    # the attribute get_rule ranges over is what __init__ stores the compiled table in
+    comp = table_attr = None
+    for o in Interp(prog, init).run():
+        for e in o.path.events:
+            if e[0] == "store" and e[1][0] == "attr" and e[1][1] == SELF and e[2][0] == "call" and e[2][1][0] == "attr" and e[2][1][1] == SELF:
+                cand = prog.lookup_method(sel, e[2][1][2])
+                if cand is not None:
+                    comp, table_attr, call = cand, e[1], e[2]
+    read = {n.attr for n in ast.walk(get.node) if isinstance(n, ast.Attribute) and isinstance(n.value, ast.Name) and n.value.id == "self" and isinstance(n.ctx, ast.Load) and prog.lookup_method(sel, n.attr) is None}
+    for o in Interp(prog, init).run():
+        if o.kind in ("normal", "return"):
+            stored = {e[1][2] for e in o.path.events if e[0] == "store" and e[1][0] == "attr" and e[1][1] == SELF}
+            chk.count()
+            if read - stored - set(sel.class_attrs):
+                chk.bad(rule, get.qual, "get_rule reads self.%s, which the selector's constructor never sets: every lookup raises AttributeError" % sorted(read - stored)[0], node=get.node, stmt="table-not-stored")
+                return
+    if comp is None:
+        chk.undecided(rule, init.qual, "the selector's constructor does not store a table compiled by an own method", node=init.node, aux=True)
+        return
+    uses = [n for n in ast.walk(get.node) if isinstance(n, ast.Attribute) and isinstance(n.value, ast.Name) and n.value.id == "self" and n.attr == table_attr[2]]
+    if not uses:
+        chk.bad(rule, get.qual, "get_rule does not read the table the constructor compiles (%s)" % show(table_attr), node=get.node, stmt="table-unused")
+        return
+    iparams = init.params() + ([init.node.args.vararg.arg] if init.node.args.vararg else [])
+    cparams = comp.params()
+    if len(cparams) != 2 or len(iparams) != 2 or list(call[2]) != [("sym", iparams[0]), ("sym", iparams[1])] or call[3]:
+        chk.undecided(rule, init.qual, "the table is compiled from %s" % [show(a) for a in call[2]], node=init.node, aux=True)
+        return
+    BASE, RULES = ("sym", cparams[0]), ("sym", cparams[1])
+    outs = Interp(prog, comp, unroll=1).run()
+    chk.count(len(outs))
+    ok = True
+    n_entries = 0
+    for o in outs:
+        if o.kind == "raise":
+            continue
+        if o.kind != "return" or o.value in (None, NONE):
+            chk.bad(rule, comp.qual, "the table compiler can complete without returning the table (get_rule then fails on None)", node=comp.node, stmt="table-not-returned")
+            ok = False
+            continue
+        evs = o.path.events
+        stores = [e for e in evs if e[0] == "store" and e[1][0] == "sub"]
+        iters = [e for e in evs if e[0] == "loop-iter"]
+        rv = o.value
+        if not iters and not any(e[0] in ("loop-exit", "loop-cut") for e in evs):
+            # the rule-less table: {(0, inf): base}
+            t = strip_sites(rv)
+            good = t[0] == "dict" and len(t[1]) == 1 and t[1][0][0][0] == "tuple" and len(t[1][0][0][1]) == 2 and t[1][0][0][1][0] == ("const", 0) and t[1][0][0][1][1] in INF_TERMS and t[1][0][1] == BASE
+            chk.count()
+            if good:
+                n_entries += 1
+            elif t[0] == "dict":
+                chk.bad(rule, comp.qual, "without threshold rules the table is %s (required: the base rule for every supply, i.e. the single range [0, inf))" % show(t), node=comp.node, stmt="table-base-only")
+                ok = False
+            else:
+                chk.undecided(rule, comp.qual, "rule-less table idiom not recognised: %s" % show(t), node=comp.node, aux=True)
+                ok = False
+            continue
+        if not iters:
+            continue
+        if len(stores) != 1:
+            if any(e[0] == "loop-iter" for e in evs) and not stores and o.kind == "return":
+                chk.bad(rule, comp.qual, "an iteration over the ranges completes without entering the range into the table", node=comp.node, stmt="table-entry-missing")
+                ok = False
+            continue
+        st = stores[0]
+        if st[1][1] != rv:
+            chk.bad(rule, comp.qual, "the ranges are entered into %s but %s is returned" % (show(strip_sites(st[1][1])), show(strip_sites(rv))), node=comp.node, stmt="table-other-returned")
+            ok = False
+            continue
+        key, val = strip_sites(st[1][2]), strip_sites(st[2])
+        if not (key[0] == "tuple" and len(key[1]) == 2):
+            chk.undecided(rule, comp.qual, "table key is %s" % show(key), node=comp.node, aux=True)
+            ok = False
+            continue
+        lo, hi = key[1]
+        projs = [lo, hi, val]
+        if not all(x[0] == "proj" and x[1][0] == "item" for x in projs) or len({x[1] for x in projs}) != 1:
+            chk.undecided(rule, comp.qual, "table entry (%s, %s) -> %s is not taken from one zipped item" % (show(lo), show(hi), show(val)), node=comp.node, aux=True)
+            ok = False
+            continue
+        z = projs[0][1][1]
+        if not (z[0] == "call" and z[1] == ("glob", "ext:builtins.zip") and len(z[2]) == 3):
+            chk.undecided(rule, comp.qual, "the ranges are not produced by a three-way zip: %s" % show(z), node=comp.node, aux=True)
+            ok = False
+            continue
+        cols = {"low": z[2][lo[2]], "high": z[2][hi[2]], "rule": z[2][val[2]]} if {lo[2], hi[2], val[2]} == {0, 1, 2} else None
+        if cols is None:
+            chk.bad(rule, comp.qual, "lower bound, upper bound and rule of an entry are not three different columns of the zip", node=comp.node, stmt="table-columns")
+            ok = False
+            continue
+        parts = {k: _seq_parts(v) for k, v in cols.items()}
+        # thresholds / rules: the two columns of zip(*sorted(rules))
+        def col(t):
+            return t[0] == "proj" and t[1][0] == "call" and t[1][1] == ("glob", "ext:builtins.zip") and len(t[1][2]) == 1 and t[1][2][0][0] == "star" and t[1][2][0][1][0] == "call" and t[1][2][0][1][1] == ("glob", "ext:builtins.sorted") and t[1][2][0][1][2][:1] == (RULES,)
+        seqs = {k: [x[1] for x in v if x[0] == "seq"] for k, v in parts.items()}
+        if not all(len(v) == 1 and col(v[0]) for v in seqs.values()):
+            chk.undecided(rule, comp.qual, "the columns are not built around zip(*sorted(rules)): %s" % {k: [show(x[1]) for x in v] for k, v in parts.items()}, node=comp.node, aux=True)
+            ok = False
+            continue
+        TH, RL = seqs["low"][0], seqs["rule"][0]
+        chk.count(3)
+        want = {
+            "low": [("elem", ("const", 0)), ("seq", TH)],
+            "high": [("seq", TH), ("elem", None)],
+            "rule": [("elem", BASE), ("seq", RL)],
+        }
+        bad_here = False
+        if TH[2] != 0 or RL[2] != 1 or seqs["high"][0] != TH:
+            chk.bad(rule, comp.qual, "the bounds are not the thresholds (first column) and the rules not the second column of the sorted rule pairs", node=comp.node, stmt="table-column-source")
+            bad_here = True
+        for k in ("low", "high", "rule"):
+            got = [(a, (None if (k == "high" and a == "elem" and b in INF_TERMS) else b)) for a, b in parts[k]]
+            if got != want[k] and not bad_here:
+                def fmt(ps):
+                    return "[" + ", ".join(("*" if a == "seq" else "") + (show(b) if b is not None else "inf") for a, b in ps) + "]"
+                what = {
+                    "low": "the lower bounds are %s (required: 0 followed by the ascending thresholds)",
+                    "high": "the upper bounds are %s (required: the ascending thresholds followed by infinity)",
+                    "rule": "the rules are %s (required: the base rule followed by the rules in threshold order): every rule is shifted against its range",
+                }[k] % fmt(parts[k])
+                chk.bad(rule, comp.qual, what, node=comp.node, stmt="table-%s-column" % k)
+                bad_here = True
+        if bad_here:
+            ok = False
+        else:
+            n_entries += 1
+    if ok and n_entries >= 2:
+        chk.ok(rule, comp.qual, "table = {(0, inf): base} without rules; otherwise zip([0, *T], [*T, inf], [base, *R]) over (T, R) = zip(*sorted(rules)), entered into the returned dict; stored by __init__ in the attribute get_rule reads", node=comp.node)
+    elif ok:
+        chk.undecided(rule, comp.qual, "table construction not recognised", node=comp.node, aux=True)
+
+
+UNBOUND = "cobald.controller.stepwise:UnboundStepwise"
+
+
+def stepwise_wiring(chk):
+    """O8.6: the rules declared on the skeleton are the rules the controller applies (declaration -> table -> run)"""
+    prog = chk.program
+    rule = "O8.6"
+    # ---- Stepwise.__init__ ---------------------------------------------------------------------
+    init = prog.method(STEPWISE, "__init__")
+    ps = init.params()
+    va = init.node.args.vararg.arg if init.node.args.vararg else None
+    ok = True
+    if len(ps) < 2 or va is None:
+        chk.undecided(rule, init.qual, "Stepwise.__init__ signature is not (target, base, *rules, interval)", node=init.node, aux=True)
+    else:
+        T, B, R = ("sym", ps[0]), ("sym", ps[1]), ("sym", va)
+        run = prog.method(STEPWISE, "run")
+        sel_attrs = {n.value.attr for n in ast.walk(run.node) if isinstance(n, ast.Attribute) and n.attr == "get_rule" and isinstance(n.value, ast.Attribute) and util.dotted(n.value.value) == "self"}
+        for o in Interp(prog, init, assert_raises=False).run():
+            chk.count()
+            if o.kind not in ("normal", "return"):
+                continue
+            evs = o.path.events
+            sup = [e[1] for e in evs if e[0] == "call" and e[1][1][0] == "attr" and e[1][1][2] == "__init__"]
+            tgt = [e for e in evs if e[0] == "store" and e[1] == ("attr", SELF, "target")]
+            if not any(list(c[2])[:1] == [T] or dict(c[3]).get("target") == T for c in sup) and not any(e[2] == T for e in tgt):
+                chk.bad(rule, init.qual, "the controller is not bound to the target pool it is given (Controller.__init__(target) is not reached): the rules act on no pool", node=init.node, stmt="target-not-bound")
+                ok = False
+            iv = [e[2] for e in evs if e[0] == "store" and e[1] == ("attr", SELF, "interval")]
+            if not iv or iv[-1] != ("sym", "interval"):
+                chk.bad(rule, init.qual, "self.interval is %s instead of the interval the controller is given" % (show(iv[-1]) if iv else "not set"), node=init.node, stmt="interval-not-stored")
+                ok = False
+            for a in sorted(sel_attrs):
+                stv = [strip_sites(e[2]) for e in evs if e[0] == "store" and e[1] == ("attr", SELF, a)]
+                want = ("call", ("glob", SELECTOR), (B, ("star", R)), ())
+                if not stv or stv[-1] != want:
+                    chk.bad(rule, init.qual, "the rule selector run() consults (self.%s) is %s instead of RangeSelector(base, *rules): declared rules are dropped or misplaced" % (a, show(stv[-1]) if stv else "never set"), node=init.node, stmt="selector-args")
+                    ok = False
+        if not sel_attrs:
+            chk.undecided(rule, run.qual, "run() does not look rules up through an attribute's get_rule", node=run.node, aux=True)
+            ok = False
+    # ---- UnboundStepwise.add --------------------------------------------------------------------
+    ucls = prog.cls(UNBOUND)
+    add = prog.pick([f for f in ucls.methods.get("add", []) if not any((d or "").endswith("overload") for d in f.decorator_names())])
+    call = prog.lookup_method(ucls, "__call__")
+    uinit = prog.lookup_method(ucls, "__init__")
+    if add is None or call is None or uinit is None:
+        chk.missing(rule, "UnboundStepwise.add / __call__")
+        return
+    base_attr = slots.attr_from_param(prog, ucls, uinit.params()[0])
+    BASEA = ("attr", SELF, base_attr)
+    aps = add.params() + [a.arg for a in add.node.args.kwonlyargs]
+    if len(aps) != 2:
+        chk.undecided(rule, add.qual, "add signature is not (rule, *, supply)", node=add.node, aux=True)
+        return
+    RULE, SUP = ("sym", aps[0]), ("sym", aps[1])
+    rules_attr = None
+    for scenario in ("given", "none"):
+
+        def decide(it, path, term, scenario=scenario):
+            t = term
+            if t == ("isnone", RULE):
+                return scenario == "none"
+            if scenario == "none" and t in (RULE, ("truthy", RULE)):
+                return False
+            return None
+
+        for o in Interp(prog, add, decide=decide).run():
+            chk.count()
+            if o.kind == "raise":
+                continue
+            evs = o.path.events
+            apps = [e[1] for e in evs if e[0] == "call" and e[1][1][0] == "attr" and e[1][1][2] == "append" and e[1][1][1][0] == "attr" and e[1][1][1][1] == SELF]
+            if scenario == "given":
+                good = [c for c in apps if [strip_sites(a) for a in c[2]] == [("tuple", (SUP, RULE))]]
+                if len(good) != 1:
+                    chk.bad(rule, add.qual, "add(rule, supply=...) records %s instead of exactly one (supply, rule) pair: the declared rule never reaches the controller's table" % ([show(strip_sites(a)) for c in apps for a in c[2]] or "nothing"), node=add.node, stmt="add-not-recorded")
+                    ok = False
+                else:
+                    rules_attr = good[0][1][1]
+                if o.kind != "return" or o.value != RULE:
+                    chk.bad(rule, add.qual, "add(rule, supply=...) returns %s instead of the rule (it is used as a decorator: the decorated name must stay the rule)" % (show(o.value) if o.value else None), node=add.node, stmt="add-returns")
+                    ok = False
+            else:
+                if apps:
+                    chk.bad(rule, add.qual, "the decorator form add(supply=...) records a pair with rule None", node=add.node, stmt="add-none-recorded")
+                    ok = False
+                v = strip_sites(o.value) if o.value else None
+                if not (o.kind == "return" and v and v[0] == "call" and v[1] == ("glob", "ext:functools.partial") and list(v[2]) == [("attr", SELF, "add")] and dict(v[3]) == {aps[1]: SUP}):
+                    if o.kind == "return" and v and v[0] in ("lambda", "closure", "func"):
+                        chk.undecided(rule, add.qual, "decorator form returns %s" % show(v), node=add.node, aux=True)
+                    else:
+                        chk.bad(rule, add.qual, "the decorator form add(supply=s) returns %s instead of a callable that adds the decorated rule for the SAME threshold" % (show(v) if v else None), node=add.node, stmt="add-decorator-form")
+                    ok = False
+    # ---- UnboundStepwise.__call__ ---------------------------------------------------------------
+    cps = call.params()
+    if len(cps) != 2 or rules_attr is None:
+        if rules_attr is not None:
+            chk.undecided(rule, call.qual, "__call__ signature is not (target, interval)", node=call.node, aux=True)
+        return
+    TG, IV = ("sym", cps[0]), ("sym", cps[1])
+    for scenario in ("given", "none"):
+
+        def decide2(it, path, term, scenario=scenario):
+            if term == ("isnone", IV):
+                return scenario == "none"
+            return None
+
+        for o in Interp(prog, call, decide=decide2).run():
+            chk.count()
+            if o.kind == "raise":
+                continue
+            v = strip_sites(o.value) if o.kind == "return" and o.value else None
+            if not (v and v[0] == "call" and v[1] == ("glob", STEPWISE)):
+                chk.bad(rule, call.qual, "calling the skeleton returns %s instead of a Stepwise controller" % (show(v) if v else None), node=call.node, stmt="call-result")
+                ok = False
+                continue
+            kw = dict(v[3])
+            pos = list(v[2])
+            if "target" in kw:
+                pos.insert(0, kw.pop("target"))
+            if pos != [TG, BASEA, ("star", rules_attr)]:
+                chk.bad(rule, call.qual, "the controller is built from %s instead of (target, base rule, *declared rules)" % [show(a) for a in pos], node=call.node, stmt="call-args")
+                ok = False
+            iv = kw.pop("interval", None)
+            if None in kw:
+                chk.undecided(rule, call.qual, "the controller is built with **%s" % show(kw[None]), node=call.node, aux=True)
+                ok = False
+                continue
+            if iv is not None and iv != IV and iv[0] != "const" and IV in list(subterms(iv)):
+                chk.undecided(rule, call.qual, "interval is passed as %s" % show(iv), node=call.node, aux=True)
+                ok = False
+                continue
+            if kw:
+                chk.bad(rule, call.qual, "the controller is built with unexpected keywords %s" % sorted(k or "**" for k in kw), node=call.node, stmt="call-kwargs")
+                ok = False
+            if scenario == "given" and iv != IV:
+                chk.bad(rule, call.qual, "an explicit interval is not handed to the controller (%s): it regulates at the default interval" % (show(iv) if iv else "dropped"), node=call.node, stmt="call-interval-dropped")
+                ok = False
+            if scenario == "none" and iv == IV:
+                chk.bad(rule, call.qual, "without an interval the controller is built with interval=%s, i.e. None, instead of its default: the first sleep raises TypeError" % show(iv), node=call.node, stmt="call-interval-none")
+                ok = False
+    if ok:
+        chk.ok(rule, UNBOUND, "add records exactly (supply, rule) and returns the rule (decorator form: partial(add, supply=supply)); calling the skeleton builds Stepwise(target, base, *rules[, interval]); Stepwise binds target, interval and RangeSelector(base, *rules), which run() consults", node=add.node)
+
+
 def stepwise(chk):
     prog = chk.program
     rule = "O8.4"
@@ -327,18 +639,7 @@ def stepwise(chk):
         elif "sorted(" not in src and ".sort(" not in src:
             chk.bad(rule, comp.qual, "the rules do not enter the lookup through sorted(): selection depends on declaration order", node=comp.node, stmt="unsorted", aux=True)
         else:
-            zips = [n for n in ast.walk(comp.node) if isinstance(n, ast.Call) and util.dotted(n.func) == "zip" and len(n.args) == 3]
-            if zips:
-                a0, a1, a2 = (ast.unparse(a).replace(" ", "") for a in zips[0].args)
-                good = a0.startswith("chain([0],") and a1.startswith("chain(") and a1.endswith(",[float('inf')])") and a2.startswith("chain([base],")
-                if good:
-                    chk.ok(rule, comp.qual, "lower bounds prefixed with 0, upper bounds suffixed with inf, rules prefixed with the base rule in lock-step", node=zips[0], aux=True)
-                elif a2.endswith(",[base])"):
-                    chk.bad(rule, comp.qual, "the base rule is appended instead of prefixed: every rule is shifted one range down", node=zips[0], stmt="base-misaligned", aux=True)
-                else:
-                    chk.undecided(rule, comp.qual, "zip/chain idiom not recognised", node=zips[0], aux=True)
-            else:
-                chk.undecided(rule, comp.qual, "lookup construction idiom not recognised", node=comp.node, aux=True)
+            lookup_table(chk, rule)
     # ---- Stepwise.run: one rule per step, write iff not None -------------------------------
     run = prog.method(STEPWISE, "run")
     name = run.qual
@@ -544,4 +845,5 @@ def run(chk):
     chk.guard("O8.2", RELATIVE, relative, chk)
     chk.guard("O8.3", "<constructors>", constructors, chk)
     chk.guard("O8.4", STEPWISE, stepwise, chk)
+    chk.guard("O8.6", UNBOUND, stepwise_wiring, chk)
     chk.guard("O8.5", SWITCH, switch, chk)
